@@ -547,6 +547,12 @@ def run(ctx, load):
     check_rb_operations(P, ctx)
     # the order of the tree is the key type's cmp: for the built-in scalar key types it must be the order of the values (a truncated or
     # overflowing difference is no order at all: a < b < c < a), or sorted iteration and lookup fail whatever the tree code does
+    # set on a key the Tree already holds re-assigns the stored key from the caller's — which may be that very object (`foreach (k in t)
+    # set(t, k, v)`): String, the usual key type, must survive being assigned from itself (shared with C16)
+    from .rules_c16 import check_self_assign
+    Ps = load(['src/String.c', 'src/Exception.c'], 'default')
+    ctx.config = 'default'
+    check_self_assign(Ps, ctx, rule='C03.key-survives-reassignment')
     # no node pointer cached in the Tree record survives the release of its node (a remembered last lookup answers for a key that is gone;
     # shared with C12)
     from .rules_c12 import check_node_caches
